@@ -13,7 +13,7 @@ def suites(tier, rng, replay):
     return [clientgen.build_suite(tier, rng, replay, ["router", "router", "router", "idgate"], "C16",
                                   {"c16": "c16_monitor",
                                    "hyp_valid": "fun ops _ => if c16_valid ops then None else Some (0, [900])"},
-                                  260, 4000, 16000)]
+                                  260, 4000, 16000, sweep=True)]
 
 
 def extra(tier, rng, workdir):
@@ -43,6 +43,7 @@ SPEC = {
     "trusted_base": [
         "Coq 8.16.1 kernel (coqc); vm_compute for evaluating model and monitor on the cases; no native_compute",
         "axioms: none declared; Print Assumptions recorded under print_assumptions",
+        "translator translator/router.go (go/parser + go/ast, no type checker): handleRequestResponse of pkg/client/remote_client.go is regenerated on every run as gen/RouterGen.v, a term of the routing language model/RouterDSL.v (search loops with their type / key comparison and deliver-remove-return body, hash-less branch, message-type switch; any statement shape it does not know becomes SUnknown, which makes the agreement theorem fail); trusted: the translator's reading of those shapes and the interpreter exec_router as the meaning of that Go code",
         "hand-written model coq/model/Client.v of runRequests / handleRequestResponse / the public calls / GetOutputs and the independent protocol meaning `answers` (model/ClientSpec.v), tied to the code by the correspondence run: real RemoteClient in-package (overlay pkg/client/verif_export.go), real runRequests goroutine, real handleMessage for every server message, real public calls (SendTx, GetTx, GetHeaders, GetHeader, GetFeeQuotes, ReprocessTx, MarkHeaderInvalid, MarkHeaderNotInvalid, GetOutputs) whose outgoing message is captured by a stand-in for the per-connection send loop",
     ],
     "assumptions": ["hashes are ids (txid / block hash of generated transactions and headers); the server is the harness",
